@@ -302,6 +302,16 @@ class SuperProxy(object):
         raise AttributeError(name)
 
 
+class TracerType(object):
+    """jax.core.Tracer: arrays are tracers exactly while a jit / vmap wrapped function is being interpreted."""
+
+    def __init__(self, world):
+        self.world = world
+
+    def __repr__(self):
+        return "<class 'jax.core.Tracer'>"
+
+
 class ArrayType(object):
     """Stand-in for jnp.ndarray / jax.Array / np.ndarray in isinstance tests."""
 
@@ -535,6 +545,8 @@ class Interp(object):
             return isinstance(x, Obj) and c in x.cls.mro()
         if isinstance(c, ArrayType):
             return isinstance(x, Arr)
+        if isinstance(c, TracerType):
+            return isinstance(x, Arr) and c.world.trace_depth > 0
         if c is float:
             return isinstance(x, (float, Fraction)) or bool(getattr(x, "__axi_is_pyfloat__", False))
         if c is int:
